@@ -1,8 +1,14 @@
 /-
 `replace_with(None)` on a receiver that has a parent: `_replace_child(old, field, index, None)` removes the
 child from the parent's field, shifts the indexes of the later siblings down, and walks the content ids up.
+
+  kidsPos_removed              the child positions of the parent after the removal
+  removed_invX                 the invariant holds afterwards except, possibly, for the parent's content id
+  replaceChild_none_inv        ... and the `_reset_content_id` walk repairs that
+  replaceWith_inv_parent_none  `replace_with(None)` on a receiver with a parent preserves the invariant
 -/
 import PyOak.Props.LegacyReplace
+import PyOak.Props.LegacyCycle
 namespace PyOak.Legacy
 open LState
 
@@ -101,17 +107,475 @@ theorem replaceChild_none (fuel : Nat) (s : LState) (p u : Nat) (f : Str) (idx :
   unfold replaceChild removed removedKids shifted
   cases idx <;> simp [shiftDown]
 
-/- NOT YET PROVED (the remaining step of `replace_with(None)` on a receiver with a parent):
+/-! ### the child positions of the parent after the removal -/
 
-  theorem removed_invX (hI : InvX Hc (Hole p (u, f, idx)) NoY s) (hp : Att s p)
-      (he : (u, f, idx) ∈ (s.obj p).kidsPos) (hudet : ¬ Att s u) :
-      InvX Hc NoX (fun x => x = p) (removed s p f idx)
+theorem posFrom_mem_zero (name : Str) (l : List Nat) (x j : Nat) :
+    (x, name, some j) ∈ posFrom name 0 l ↔ l[j]? = some x := by
+  rw [posFrom_mem_iff]
+  constructor
+  · rintro ⟨m, y, hy, he⟩
+    simp only [Nat.zero_add, Prod.mk.injEq, Option.some.injEq, true_and] at he
+    obtain ⟨rfl, rfl⟩ := he; exact hy
+  · intro h; exact ⟨j, x, h, by simp⟩
 
-  Plan: the child positions of `p` after the removal are the old positions of the other fields plus, for the
-  field `f`, `(x, f, some m)` with `x = kids[m]` for `m < i` and `x = kids[m+1]` for `m ≥ i` (`posFrom_mem_iff`,
-  `List.getElem?_eraseIdx`); the shifted siblings are exactly the `kids[k]`, `k > i`, pairwise distinct because the
-  invariant gives them the indexes `k` (`nodup_of_index_inj`), so `shiftDown_mem` gives them `(p, f, k-1)`.
-  With that, `resetContentId_inv` finishes as in `replaceChild_some_inv`. -/
+/-- one field: the entries after the removed one move down by one index -/
+theorem pos_removed (fl : LField) (idx : Option Nat) (u : Nat) (he : (u, fl.name, idx) ∈ fl.pos)
+    (e' : Nat × Str × Option Nat) :
+    e' ∈ ({ fl with kids := removedKids fl.kids idx } : LField).pos ↔
+      ∃ i m x, idx = some i ∧ e' = (x, fl.name, some m) ∧
+        (x, fl.name, some (if m < i then m else m + 1)) ∈ fl.pos := by
+  unfold LField.pos at he ⊢
+  by_cases hs : fl.kind.isSeq = true
+  · simp only [hs, if_true] at he ⊢
+    obtain ⟨i, h1, _, _⟩ := posFrom_idx_ge fl.name fl.kids 0 _ he
+    simp only at h1; subst h1
+    simp only [removedKids, ← List.eraseIdx_eq_take_drop_succ]
+    rw [posFrom_mem_iff]
+    constructor
+    · rintro ⟨m, x, hx, rfl⟩
+      refine ⟨i, m, x, rfl, by simp, ?_⟩
+      rw [posFrom_mem_zero]
+      rw [List.getElem?_eraseIdx] at hx
+      split <;> simp_all
+    · rintro ⟨i', m, x, hi, rfl, hm⟩
+      cases hi
+      refine ⟨m, x, ?_, by simp⟩
+      rw [posFrom_mem_zero] at hm
+      rw [List.getElem?_eraseIdx]
+      split <;> simp_all
+  · simp only [hs, Bool.false_eq_true, if_false] at he ⊢
+    obtain ⟨c, _, hce⟩ := List.mem_map.mp he
+    simp only [Prod.mk.injEq] at hce
+    have : idx = none := hce.2.2.symm
+    subst this
+    simp [removedKids]
+
+/-- the whole object -/
+theorem kidsPos_removed (o : LObj) (ho : o.wf) (u : Nat) (f : Str) (idx : Option Nat)
+    (he : (u, f, idx) ∈ o.kidsPos) (ks : List Nat)
+    (hks : ∀ fl ∈ o.fields, fl.name = f → ks = removedKids fl.kids idx) (e' : Nat × Str × Option Nat) :
+    e' ∈ ({ o with fields := o.fields.map fun fl => if fl.name = f then { fl with kids := ks } else fl } : LObj).kidsPos ↔
+      (e' ∈ o.kidsPos ∧ e'.2.1 ≠ f) ∨
+      ∃ i m x, idx = some i ∧ e' = (x, f, some m) ∧ (x, f, some (if m < i then m else m + 1)) ∈ o.kidsPos := by
+  unfold LObj.kidsPos at he ⊢
+  obtain ⟨fl0, hfl0, he0⟩ := List.mem_flatMap.mp he
+  have hn0 : fl0.name = f := (pos_field_name fl0 _ he0).symm
+  have uniq : ∀ fl ∈ o.fields, fl.name = f → fl = fl0 := fun fl hfl hname =>
+    eq_of_nodup_map (·.name) o.fields ho.1 fl hfl fl0 hfl0 (hname.trans hn0.symm)
+  have hpr := pos_removed fl0 idx u (by rw [hn0]; exact he0)
+  rw [hn0] at hpr
+  simp only [List.mem_flatMap, List.mem_map]
+  constructor
+  · rintro ⟨fl', ⟨fl, hfl, rfl⟩, hm⟩
+    by_cases hname : fl.name = f
+    · have := uniq fl hfl hname; subst this
+      simp only [hname, if_true] at hm
+      rw [hks fl hfl hname] at hm
+      obtain ⟨i, m, x, h1, h2, h3⟩ := (hpr e').mp hm
+      exact .inr ⟨i, m, x, h1, h2, fl, hfl, h3⟩
+    · simp only [hname, if_false] at hm
+      exact .inl ⟨⟨fl, hfl, hm⟩, by rw [pos_field_name fl e' hm]; exact hname⟩
+  · rintro (⟨⟨fl, hfl, hm⟩, hne⟩ | ⟨i, m, x, h1, h2, fl, hfl, h3⟩)
+    · have hname : fl.name ≠ f := by rw [← pos_field_name fl e' hm]; exact hne
+      exact ⟨_, ⟨fl, hfl, rfl⟩, by simp only [hname, if_false]; exact hm⟩
+    · have hname : fl.name = f := (pos_field_name fl _ h3).symm
+      have := uniq fl hfl hname; subst this
+      refine ⟨_, ⟨fl, hfl, rfl⟩, ?_⟩
+      simp only [hname, if_true]
+      rw [hks fl hfl hname]
+      exact (hpr e').mpr ⟨i, m, x, h1, h2, h3⟩
+
+/-! ### closing the hole by removal -/
+
+theorem setField_obj (s : LState) (p : Nat) (f : Str) (ks : List Nat) (x : Nat) :
+    (setField s p f ks).obj x =
+      if x = p then { s.obj p with fields := (s.obj p).fields.map fun fl =>
+        if fl.name = f then { fl with kids := ks } else fl } else s.obj x := by
+  unfold setField; rw [modify_obj]
+
+/-- after the removal (field assignment + index shift) the invariant holds except, possibly, for the
+content id of the parent -/
+theorem removed_invX {s : LState} {p u : Nat} {f : Str} {idx : Option Nat}
+    (hI : InvX Hc (Hole p (u, f, idx)) NoY s) (hp : Att s p) (he : (u, f, idx) ∈ (s.obj p).kidsPos)
+    (hudet : ¬ Att s u) : InvX Hc NoX (fun x => x = p) (removed s p f idx) := by
+  obtain ⟨fl0, hfl0, he0⟩ := List.mem_flatMap.mp (show (u, f, idx) ∈ (s.obj p).fields.flatMap LField.pos from he)
+  have hn0 : fl0.name = f := (pos_field_name fl0 _ he0).symm
+  have hkids : fieldKids s p f = fl0.kids := fieldKids_eq (hI.wf p) hfl0 hn0
+  have hwf0 : fl0.wf := (hI.wf p).2 fl0 hfl0
+  have in_fl0 : ∀ x j, (x, f, j) ∈ (s.obj p).kidsPos → (x, f, j) ∈ fl0.pos := by
+    intro x j hm
+    obtain ⟨fl, hfl, hm'⟩ := List.mem_flatMap.mp (show (x, f, j) ∈ (s.obj p).fields.flatMap LField.pos from hm)
+    have hname : fl.name = f := (pos_field_name fl _ hm').symm
+    have := eq_of_nodup_map (·.name) _ (hI.wf p).1 fl hfl fl0 hfl0 (hname.trans hn0.symm)
+    rw [← this]; exact hm'
+  have of_fl0 : ∀ e', e' ∈ fl0.pos → e' ∈ (s.obj p).kidsPos := fun e' h =>
+    List.mem_flatMap.mpr ⟨fl0, hfl0, h⟩
+  -- every entry of the field is the hole or a sequence entry with another index
+  have hfield : ∀ x j, (x, f, j) ∈ (s.obj p).kidsPos →
+      (x = u ∧ j = idx) ∨ ∃ i m, idx = some i ∧ j = some m ∧ m ≠ i ∧ fl0.kids[m]? = some x ∧
+        fl0.kind.isSeq = true := by
+    intro x j hm
+    have hm0 := in_fl0 x j hm
+    have he0' := he0
+    unfold LField.pos at hm0 he0'
+    by_cases hs : fl0.kind.isSeq = true
+    · simp only [hs, if_true] at hm0 he0'
+      obtain ⟨i, h1, _, _⟩ := posFrom_idx_ge _ _ 0 _ he0'
+      obtain ⟨m, h2, _, _⟩ := posFrom_idx_ge _ _ 0 _ hm0
+      simp only at h1 h2; subst h1 h2
+      rw [hn0, posFrom_mem_zero] at hm0 he0'
+      by_cases hmi : m = i
+      · subst hmi; rw [hm0] at he0'; exact .inl ⟨Option.some.inj he0', rfl⟩
+      · exact .inr ⟨i, m, rfl, rfl, hmi, hm0, hs⟩
+    · simp only [hs, Bool.false_eq_true, if_false] at hm0 he0'
+      left
+      have hlen : fl0.kids.length ≤ 1 := by
+        rcases hwf0 with h | h
+        · exact absurd h hs
+        · exact h
+      obtain ⟨c, hc, hce⟩ := List.mem_map.mp he0'
+      obtain ⟨c', hc', hce'⟩ := List.mem_map.mp hm0
+      simp only [Prod.mk.injEq] at hce hce'
+      obtain ⟨rfl, _, rfl⟩ := hce
+      obtain ⟨rfl, _, rfl⟩ := hce'
+      refine ⟨?_, rfl⟩
+      match hkk : fl0.kids, hc, hc', hlen with
+      | [y], hc, hc', _ => simp at hc hc'; rw [hc, hc']
+      | _ :: _ :: _, _, _, hl => simp at hl
+  -- entries of p other than the hole are consistent
+  have old_entry : ∀ e', e' ∈ (s.obj p).kidsPos → e' ≠ (u, f, idx) → KidOk s p e' :=
+    fun e' he' hne => hI.down p hp e' he' (fun hx => hne hx.2)
+  -- the shifted siblings
+  have hshdef : ∀ x, x ∈ shifted (fieldKids s p f) idx ↔
+      ∃ i m, idx = some i ∧ i < m ∧ fl0.kids[m]? = some x := by
+    intro x
+    rw [hkids]
+    cases idx with
+    | none => simp [shifted]
+    | some i =>
+      simp only [shifted, List.mem_iff_getElem?, List.getElem?_drop]
+      constructor
+      · rintro ⟨m', hm'⟩; exact ⟨i, i + 1 + m', rfl, by omega, hm'⟩
+      · rintro ⟨i', m, hi, hlt, hm⟩
+        cases hi
+        exact ⟨m - (i + 1), by rw [show i + 1 + (m - (i + 1)) = m by omega]; exact hm⟩
+  have hseq_of_some : ∀ i, idx = some i → fl0.kind.isSeq = true := by
+    intro i hi
+    rcases hfield u idx he with ⟨_, _⟩ | ⟨_, _, _, _, _, _, hs⟩
+    · apply Classical.byContradiction; intro hs
+      have he0' := he0
+      unfold LField.pos at he0'
+      simp only [hs, Bool.false_eq_true, if_false] at he0'
+      obtain ⟨c, _, hce⟩ := List.mem_map.mp he0'
+      simp only [Prod.mk.injEq] at hce
+      rw [hi] at hce; cases hce.2.2
+    · exact hs
+  have kid_entry : ∀ i m x, idx = some i → fl0.kids[m]? = some x → (x, f, some m) ∈ (s.obj p).kidsPos := by
+    intro i m x hi hm
+    apply of_fl0
+    unfold LField.pos
+    simp only [hseq_of_some i hi, if_true]
+    rw [hn0, posFrom_mem_zero]; exact hm
+  have hshOk : ∀ x ∈ shifted (fieldKids s p f) idx, ∃ i m, idx = some i ∧ i < m ∧ Att s x ∧
+      (s.obj x).pid = some (s.idOf p) ∧ (s.obj x).pfield = some f ∧ (s.obj x).pindex = some m := by
+    intro x hx
+    obtain ⟨i, m, hi, hlt, hm⟩ := (hshdef x).mp hx
+    obtain ⟨a, b, c, d⟩ := old_entry _ (kid_entry i m x hi hm) (by
+      intro h; simp only [Prod.mk.injEq] at h; rw [hi] at h; have := h.2.2; simp at this; omega)
+    exact ⟨i, m, hi, hlt, a, b, c, d⟩
+  have hshnd : (shifted (fieldKids s p f) idx).Nodup := by
+    rw [hkids]
+    cases hidx : idx with
+    | none => simp [shifted]
+    | some i =>
+      simp only [shifted]
+      apply nodup_of_index_inj (fun x => (s.obj x).pindex.getD 0 - (i + 1))
+      intro m x hm
+      rw [List.getElem?_drop] at hm
+      obtain ⟨_, _, _, d⟩ := old_entry _ (kid_entry i _ x hidx hm) (by
+        intro h; simp only [Prod.mk.injEq] at h; rw [hidx] at h; have := h.2.2; simp at this; omega)
+      simp only at d
+      simp only [d, Option.getD_some]; omega
+  have hpnsh : p ∉ shifted (fieldKids s p f) idx := by
+    intro hm
+    obtain ⟨_, _, _, _, _, b, _, _⟩ := hshOk p hm
+    apply hI.noSelf p
+    unfold LState.parent; rw [b]; exact hp
+  -- the records of the new state
+  have hidp' : (setField s p f (removedKids (fieldKids s p f) idx)).idOf p = s.idOf p := by
+    unfold LState.idOf; rw [setField_obj]; simp
+  have hobj_sh : ∀ x ∈ shifted (fieldKids s p f) idx, (removed s p f idx).obj x =
+      { s.obj x with pid := some (s.idOf p), pfield := some f, pindex := (s.obj x).pindex.map (· - 1) } := by
+    intro x hx
+    have hxp : x ≠ p := fun e => hpnsh (e ▸ hx)
+    unfold removed
+    rw [shiftDown_mem p f _ _ hshnd x hx, hidp', setField_obj]
+    simp [hxp]
+  have hobj_nsh : ∀ x, x ∉ shifted (fieldKids s p f) idx → (removed s p f idx).obj x =
+      (setField s p f (removedKids (fieldKids s p f) idx)).obj x := by
+    intro x hx; unfold removed; exact shiftDown_not_mem p f _ _ x hx
+  have hlk : ∀ k, (removed s p f idx).lookup k = s.lookup k := by
+    intro k; unfold removed; rw [shiftDown_lookup]; rfl
+  have hsz : (removed s p f idx).size = s.size := by
+    unfold removed; rw [shiftDown_size]; rfl
+  -- everything except the parent's fields and the shifted indexes stays
+  have hrest : ∀ x, SameButParent ((removed s p f idx).obj x)
+      (if x = p then { s.obj p with fields := (s.obj p).fields.map fun fl =>
+        if fl.name = f then { fl with kids := removedKids (fieldKids s p f) idx } else fl } else s.obj x) := by
+    intro x
+    by_cases hx : x ∈ shifted (fieldKids s p f) idx
+    · have hxp : x ≠ p := fun e => hpnsh (e ▸ hx)
+      rw [hobj_sh x hx]; simp only [hxp, if_false]
+      exact ⟨rfl, rfl, rfl, rfl, rfl, rfl, rfl, rfl, rfl⟩
+    · rw [hobj_nsh x hx, setField_obj]; exact SameButParent.refl _
+  have hid : ∀ x, (removed s p f idx).idOf x = s.idOf x := by
+    intro x; unfold LState.idOf; rw [(hrest x).id]; split
+    · next h => subst h; rfl
+    · rfl
+  have hcid : ∀ x, ((removed s p f idx).obj x).cid = (s.obj x).cid := by
+    intro x; rw [(hrest x).cid]; split
+    · next h => subst h; rfl
+    · rfl
+  have hclsprops : ∀ x, ((removed s p f idx).obj x).cls = (s.obj x).cls ∧
+      ((removed s p f idx).obj x).props = (s.obj x).props := by
+    intro x; rw [(hrest x).cls, (hrest x).props]; split
+    · next h => subst h; exact ⟨rfl, rfl⟩
+    · exact ⟨rfl, rfl⟩
+  have hfl : ∀ x, x ≠ p → ((removed s p f idx).obj x).fields = (s.obj x).fields := by
+    intro x hx; rw [(hrest x).fields]; simp [hx]
+  have hkp : ∀ x, x ≠ p → ((removed s p f idx).obj x).kidsPos = (s.obj x).kidsPos := by
+    intro x hx; unfold LObj.kidsPos; rw [hfl x hx]
+  have hflp : ((removed s p f idx).obj p).fields = (s.obj p).fields.map fun fl =>
+      if fl.name = f then { fl with kids := removedKids (fieldKids s p f) idx } else fl := by
+    rw [(hrest p).fields]; simp
+  have hkpp : ∀ e', e' ∈ ((removed s p f idx).obj p).kidsPos ↔
+      (e' ∈ (s.obj p).kidsPos ∧ e'.2.1 ≠ f) ∨
+      ∃ i m x, idx = some i ∧ e' = (x, f, some m) ∧ (x, f, some (if m < i then m else m + 1)) ∈ (s.obj p).kidsPos := by
+    intro e'
+    have := kidsPos_removed (s.obj p) (hI.wf p) u f idx he (removedKids (fieldKids s p f) idx)
+      (fun fl hfl hname => by rw [fieldKids_eq (hI.wf p) hfl hname]) e'
+    unfold LObj.kidsPos at this ⊢
+    rw [hflp]; exact this
+  have hpid : ∀ x, ((removed s p f idx).obj x).pid = (s.obj x).pid := by
+    intro x
+    by_cases hx : x ∈ shifted (fieldKids s p f) idx
+    · obtain ⟨_, _, _, _, _, b, _, _⟩ := hshOk x hx
+      rw [hobj_sh x hx, b]
+    · rw [hobj_nsh x hx, setField_obj]; split
+      · next h => subst h; rfl
+      · rfl
+  have hpf : ∀ x, ((removed s p f idx).obj x).pfield = (s.obj x).pfield := by
+    intro x
+    by_cases hx : x ∈ shifted (fieldKids s p f) idx
+    · obtain ⟨_, _, _, _, _, _, c, _⟩ := hshOk x hx
+      rw [hobj_sh x hx, c]
+    · rw [hobj_nsh x hx, setField_obj]; split
+      · next h => subst h; rfl
+      · rfl
+  have hpix_n : ∀ x, x ∉ shifted (fieldKids s p f) idx →
+      ((removed s p f idx).obj x).pindex = (s.obj x).pindex := by
+    intro x hx
+    rw [hobj_nsh x hx, setField_obj]; split
+    · next h => subst h; rfl
+    · rfl
+  have hpix_s : ∀ x, x ∈ shifted (fieldKids s p f) idx → ∀ m, (s.obj x).pindex = some m →
+      ((removed s p f idx).obj x).pindex = some (m - 1) := by
+    intro x hx m hm
+    rw [hobj_sh x hx]; simp [hm]
+  have hatt : ∀ x, Att (removed s p f idx) x ↔ Att s x := by intro x; unfold Att; rw [hid, hlk]
+  have hpar : ∀ x, (removed s p f idx).parent x = s.parent x := by
+    intro x; unfold LState.parent; rw [hpid]; cases (s.obj x).pid <;> simp [hlk]
+  -- a shifted node is a child of p only
+  have sh_parent : ∀ x ∈ shifted (fieldKids s p f) idx, s.parent x = some p := by
+    intro x hx
+    obtain ⟨_, _, _, _, _, b, _, _⟩ := hshOk x hx
+    unfold LState.parent; rw [b]; exact hp
+  refine ⟨?_, ?_, ?_, ?_, ?_, ?_, ?_, ?_⟩
+  · intro k v hk
+    rw [hlk] at hk
+    obtain ⟨a, b⟩ := hI.regSound k v hk
+    exact ⟨by rw [hsz]; exact a, by rw [hid]; exact b⟩
+  · -- down
+    intro w hw e' he' _
+    have hws := (hatt w).mp hw
+    by_cases hwp : w = p
+    · subst hwp
+      rcases (hkpp e').mp he' with ⟨hold, hne⟩ | ⟨i, m, x, hi, rfl, hold⟩
+      · obtain ⟨a, b, c, d⟩ := old_entry e' hold (by intro h; rw [h] at hne; exact hne rfl)
+        have hns : e'.1 ∉ shifted (fieldKids s w f) idx := by
+          intro hm
+          obtain ⟨_, _, _, _, _, _, c', _⟩ := hshOk _ hm
+          rw [c] at c'; exact hne (Option.some.inj c')
+        exact ⟨(hatt _).mpr a, by rw [hpid, hid]; exact b, by rw [hpf]; exact c, by rw [hpix_n _ hns]; exact d⟩
+      · by_cases hmi : m < i
+        · simp only [hmi, if_true] at hold
+          obtain ⟨a, b, c, d⟩ := old_entry _ hold (by
+            intro h; simp only [Prod.mk.injEq] at h; rw [hi] at h; have := h.2.2; simp at this; omega)
+          have hns : x ∉ shifted (fieldKids s w f) idx := by
+            intro hm
+            obtain ⟨i', m', hi', hlt, _, _, _, d'⟩ := hshOk _ hm
+            rw [hi] at hi'; cases hi'
+            simp only at d; rw [d] at d'; cases d'; omega
+          exact ⟨(hatt _).mpr a, by rw [hpid, hid]; exact b, by rw [hpf]; exact c, by rw [hpix_n _ hns]; exact d⟩
+        · simp only [hmi, if_false] at hold
+          obtain ⟨a, b, c, d⟩ := old_entry _ hold (by
+            intro h; simp only [Prod.mk.injEq] at h; rw [hi] at h; have := h.2.2; simp at this; omega)
+          have hxs : x ∈ shifted (fieldKids s w f) idx := by
+            rcases hfield x _ hold with ⟨rfl, _⟩ | ⟨i', m', hi', hm', _, hk, _⟩
+            · exact absurd a hudet
+            · rw [hi] at hi'; cases hi'; cases hm'
+              exact (hshdef x).mpr ⟨i, m + 1, hi, by omega, hk⟩
+          simp only at d
+          exact ⟨(hatt _).mpr a, by rw [hpid, hid]; exact b, by rw [hpf]; exact c,
+            by rw [hpix_s x hxs (m + 1) d]; simp⟩
+    · rw [hkp w hwp] at he'
+      obtain ⟨a, b, c, d⟩ := hI.down w hws e' he' (fun hx => hwp hx.1)
+      have hns : e'.1 ∉ shifted (fieldKids s p f) idx := by
+        intro hm
+        have h1 := sh_parent _ hm
+        unfold LState.parent at h1
+        rw [b] at h1; simp only at h1
+        unfold Att at hws; rw [hws] at h1
+        exact hwp (Option.some.inj h1)
+      exact ⟨(hatt _).mpr a, by rw [hpid, hid]; exact b, by rw [hpf]; exact c, by rw [hpix_n _ hns]; exact d⟩
+  · -- up
+    intro x hx q hq
+    have hxs := (hatt x).mp hx
+    rw [hpar] at hq
+    obtain ⟨f', hf', hm⟩ := hI.up x hxs q hq
+    refine ⟨f', by rw [hpf]; exact hf', ?_⟩
+    have hxu : x ≠ u := fun e => hudet (e ▸ hxs)
+    by_cases hqp : q = p
+    · subst hqp
+      rw [hkpp]
+      by_cases hxsh : x ∈ shifted (fieldKids s q f) idx
+      · obtain ⟨i, m, hi, hlt, _, _, c, d⟩ := hshOk x hxsh
+        rw [hf'] at c; cases c
+        rw [hpix_s x hxsh m d]
+        right
+        refine ⟨i, m - 1, x, hi, rfl, ?_⟩
+        have : ¬ (m - 1 < i) := by omega
+        simp only [this, if_false]
+        rw [show m - 1 + 1 = m by omega, ← d]; exact hm
+      · rw [hpix_n x hxsh]
+        by_cases hff : f' = f
+        · subst hff
+          rcases hfield x _ hm with ⟨e, _⟩ | ⟨i, m, hi, hj, hne, hk, _⟩
+          · exact absurd e hxu
+          · right
+            have hlt : m < i := by
+              apply Classical.byContradiction; intro hge
+              exact hxsh ((hshdef x).mpr ⟨i, m, hi, by omega, hk⟩)
+            refine ⟨i, m, x, hi, by rw [hj], ?_⟩
+            simp only [hlt, if_true]
+            rw [← hj]; exact hm
+        · exact .inl ⟨hm, hff⟩
+    · rw [hkp q hqp]
+      have hns : x ∉ shifted (fieldKids s p f) idx := by
+        intro hms
+        have := sh_parent x hms
+        rw [hq] at this; exact hqp (Option.some.inj this)
+      rw [hpix_n x hns]; exact hm
+  · -- cid (everybody but p)
+    intro x hx hy
+    have hxs := (hatt x).mp hx
+    rw [hcid, hI.cid x hxs (fun h => h)]
+    congr 1
+    symm
+    exact cidPre_congr (hclsprops x).1 (hclsprops x).2 (hfl x hy) (fun c _ => hcid c)
+  · intro x k hk
+    rw [hpid] at hk
+    obtain ⟨a, b⟩ := hI.noDangling x k hk
+    exact ⟨(hatt x).mpr a, by rw [hlk]; exact b⟩
+  · -- closed
+    intro v hv c hc
+    rw [hsz] at hv ⊢
+    by_cases hvp : v = p
+    · subst hvp
+      obtain ⟨e', he', he1⟩ := (mem_kidList_iff _ _).mp hc
+      rcases (hkpp e').mp he' with ⟨hold, _⟩ | ⟨i, m, x, _, rfl, hold⟩
+      · exact hI.closed v hv c ((mem_kidList_iff _ _).mpr ⟨e', hold, he1⟩)
+      · exact hI.closed v hv c ((mem_kidList_iff _ _).mpr ⟨_, hold, he1⟩)
+    · have : ((removed s p f idx).obj v).kidList = (s.obj v).kidList := by
+        unfold LObj.kidList; rw [hfl v hvp]
+      rw [this] at hc
+      exact hI.closed v hv c hc
+  · intro x hx; rw [hpar] at hx; exact hI.noSelf x hx
+  · -- wf
+    intro v
+    by_cases hvp : v = p
+    · subst hvp
+      obtain ⟨h1, h2⟩ := hI.wf v
+      unfold LObj.wf
+      rw [hflp]
+      constructor
+      · simp only [List.map_map]
+        have : (List.map ((fun x => x.name) ∘ fun fl => if fl.name = f then
+            { fl with kids := removedKids (fieldKids s v f) idx } else fl) (s.obj v).fields) =
+            (s.obj v).fields.map (·.name) := by
+          apply List.map_congr_left
+          intro fl _
+          simp only [Function.comp]
+          split <;> rfl
+        rw [this]; exact h1
+      · intro fl' hfl'
+        obtain ⟨fl, hfl, hfe⟩ := List.mem_map.mp hfl'
+        by_cases hname : fl.name = f
+        · simp only [hname, if_true] at hfe
+          subst hfe
+          rcases h2 fl hfl with hs | hs
+          · exact .inl hs
+          · right
+            rw [fieldKids_eq (hI.wf v) hfl hname]
+            show (removedKids fl.kids idx).length ≤ 1
+            cases idx with
+            | none => simp [removedKids]
+            | some i =>
+              simp only [removedKids, List.length_append, List.length_take, List.length_drop]
+              omega
+        · simp only [hname, if_false] at hfe
+          subst hfe
+          exact h2 fl hfl
+    · unfold LObj.wf; rw [hfl v hvp]; exact hI.wf v
+
+/-- **`_replace_child(old, field, index, None)`** closes the hole by removing the child and, walking up,
+repairs the content ids -/
+theorem replaceChild_none_inv {s s' : LState} {p u fuel : Nat} {f : Str} {idx : Option Nat}
+    (hI : InvX Hc (Hole p (u, f, idx)) NoY s) (hp : Att s p) (he : (u, f, idx) ∈ (s.obj p).kidsPos)
+    (hudet : ¬ Att s u) (h : replaceChild Hc fuel s p u f idx none = (s', true)) : Inv Hc s' := by
+  rw [replaceChild_none] at h
+  exact resetContentId_inv Hc fuel _ p s' (removed_invX Hc hI hp he hudet) h
+
+/-! ### `replace_with(None)` on a receiver that has a parent -/
+
+theorem replaceWith_inv_parent_none {s s' : LState} {u p fuel : Nat} (hI : Inv Hc s)
+    (hpar : s.parent u = some p) (h : replaceWith Hc fuel s u none = (s', .ok ())) : Inv Hc s' := by
+  obtain ⟨f, hf, _⟩ := hI.up u (att_of_parent Hc hI hpar) p hpar
+  unfold replaceWith at h
+  simp only [Bool.false_eq_true, if_false, hpar, hf] at h
+  split at h
+  · simp at h
+  · split at h
+    · simp at h
+    · cases hds : detachGo (fuel + 1) false (s.clearParent u) u with
+      | mk s2 res =>
+        rw [hds] at h
+        cases res with
+        | none => simp at h
+        | some b =>
+          simp only at h
+          obtain ⟨f', hO⟩ := rwith_open Hc hI hpar hds
+          have hff : f' = f := by have := hO.hf; rw [hf] at this; exact (Option.some.inj this).symm
+          subst hff
+          cases hrc : replaceChild Hc fuel s2 p u f' (s.obj u).pindex none with
+          | mk s3 fin =>
+            rw [hrc] at h
+            cases fin with
+            | false => simp at h
+            | true =>
+              simp only [if_true, Prod.mk.injEq, and_true] at h
+              subst h
+              exact replaceChild_none_inv Hc hO.inv2 hO.pa2 hO.mem2 hO.nu2 hrc
 
 end
 
